@@ -1040,8 +1040,14 @@ func c16Wired(w *core.WorkerCtx, idx int, r *core.Rng, spec *cfggen.Spec, res *c
 		return
 	}
 	var tsdb int64
+	var reloadFail int32
 	fake := httptest.NewServer(http.HandlerFunc(func(rw http.ResponseWriter, rq *http.Request) {
 		rw.Header().Set("Content-Type", "application/json")
+		if strings.HasSuffix(rq.URL.Path, "/-/reload") && atomic.LoadInt32(&reloadFail) > 0 {
+			rw.WriteHeader(500)
+			io.WriteString(rw, `{"status":"error","error":"couldn't load configuration"}`)
+			return
+		}
 		if strings.HasSuffix(rq.URL.Path, "/status/tsdb") {
 			atomic.AddInt64(&tsdb, 1)
 			io.WriteString(rw, `{"status":"success","data":{"headStats":{"numSeries":0}}}`)
@@ -1132,6 +1138,52 @@ func c16Wired(w *core.WorkerCtx, idx int, r *core.Rng, spec *cfggen.Spec, res *c
 			return
 		}
 	}
+	// "reported in sync exactly when it runs the coordinator's configuration": the shard runs version 2 (text3) and is
+	// in sync. An operator's version 1 (text) is pushed while Prometheus refuses the reload - the push fails - and the
+	// operator reverts the coordinator to version 2 before it ever succeeded. The coordinator does what it does every
+	// cycle: it pushes its configuration if the shard reports another hash. Afterwards a shard that reports the
+	// coordinator's hash must run the coordinator's configuration: its generated file is the one of version 2.
+	if err3 == nil && len(s3.Jobs) > 0 && text != text3 {
+		outFile := filepath.Join(dir, "out.yaml")
+		file3, err := os.ReadFile(outFile)
+		if err != nil {
+			return
+		}
+		atomic.StoreInt32(&reloadFail, 1)
+		perr := post("/api/v1/status/config/", &shard.UpdateConfigRequest{RawContent: text})
+		atomic.StoreInt32(&reloadFail, 0)
+		if perr == nil {
+			return // the reload is not what this version exercises
+		}
+		got, err := hash()
+		if err != nil {
+			res.Inconcl = "real sidecar runtimeinfo: " + err.Error()
+			return
+		}
+		pushed := false
+		if got != want3 {
+			if err := post("/api/v1/status/config/", &shard.UpdateConfigRequest{RawContent: text3}); err != nil {
+				res.Inconcl = "real sidecar, push after the failed one: " + err.Error()
+				return
+			}
+			pushed = true
+			if got, err = hash(); err != nil {
+				res.Inconcl = "real sidecar runtimeinfo: " + err.Error()
+				return
+			}
+		}
+		res.Execs++
+		res.AddStat("real_sidecar_pushes_refused_by_prometheus_then_reverted", 1)
+		fileNow, _ := os.ReadFile(outFile)
+		if got == want3 && string(fileNow) != string(file3) {
+			res.Violate("C16/real-sidecar/in-sync-but-runs-another-configuration", "real sidecar: a push of another version failed in Prometheus' reload; afterwards the shard reports the coordinator's hash %s (configuration pushed again: %v) but its generated file is not the one it had when it ran the coordinator's configuration (%d vs %d bytes)", got, pushed, len(fileNow), len(file3))
+			if res.Witness == nil {
+				res.Witness = map[string]interface{}{"kind": "real sidecar process", "coordinator_config": text3, "refused_config": text, "generated_now": clipS(string(fileNow), 3000)}
+			}
+		} else if got != want3 {
+			res.Violate("C16/real-sidecar/hash-differs-from-content-hash", "real sidecar: after the coordinator's configuration was pushed again (following a push that failed in Prometheus' reload) runtimeinfo reports hash %s, the coordinator's is %s", got, want3)
+		}
+	}
 }
 
 // generic strips the job position so that findings are keyed by the kind of setting.
@@ -1162,6 +1214,7 @@ func init() {
 		Rule: "case = one generated configuration (1-4 jobs with scheme/path/params/intervals/honor flags/limits/relabel and metric-relabel programs/auth kinds/SD kinds, global section, rule files, alerting, remote write/read with secrets) hashed by the real prom.ConfigManager; " +
 			"for it every applicable entry of a catalogue of ~150 single-setting edits (each scalar, list entry added/removed, regex of scrape/metric/alert/write relabel rules, secrets, usernames, SD options, remote URLs) must change the hash; 7 re-renderings (indentation, quoting style, comments, key order, flow lists) and 3 external-label changes must not; every second case also loads the same bytes from a file in a nested directory (as the coordinator does; the generator emits relative rule-file and file-discovery paths) and compares with the raw-content hash (as a sidecar computes it); every 8th case also hashes the same text in 3 fresh processes and through a sidecar's /runtimeinfo/; " +
 			"plus processes wired as cmd/kvass wires them: a ConfigManager whose first reload callback rewrites the parsed configuration in place (service-account paths, kubernetes api_server) goes through reload / stop reason set / same again / cleared / reload / set, and every 16th case the real `kvass sidecar --inject.kubernetes-sa-path` process goes through the same steps over HTTP - the hash must stay the hash of the content; " +
+			"on the real sidecar process also: a push of another version that fails in Prometheus' reload, after which the coordinator (still at its version) pushes if the reported hash differs - a shard that then reports the coordinator's hash must have the generated file of the coordinator's version; " +
 			"non-trivial = every case whose base configuration loads; distinct = hash of the base text",
 		Assumptions: []string{
 			"pure re-ordering of lists is not asserted either way",
